@@ -182,4 +182,38 @@ Definition bary_inv (ms bs : list T) (M : T) (na : nat) : list T :=
       ((M * b0 - s) * (1 / m0)) :: xs
   | _, _ => []
   end.
+
+(* ---------------- MERCURIUS / TRACE democratic-heliocentric shifts (in place) ----------------
+   reb_integrator_mercurius_inertial_to_dh / _dh_to_inertial and the identical TRACE versions.
+   com_pos.x += m * x  (note the operand order), one division at the end. *)
+Fixpoint mwsum (l : list (T * T)) (acc : T) : T :=
+  match l with
+  | [] => acc
+  | (mi, qi) :: r => mwsum r (acc + mi * qi)
+  end.
+Definition merc_com (ms qs : list T) (na : nat) : T :=
+  mwsum (combine (firstn na ms) (firstn na qs)) 0 / sumf N (firstn na ms) 0.
+(* positions: every particle (also particle 0, processed last) minus the ORIGINAL particles[0].x *)
+Definition merc_fwd_pos (qs : list T) : list T :=
+  match qs with q0 :: qr => (q0 - q0) :: map (fun q => q - q0) qr | [] => [] end.
+(* velocities: every particle minus com_vel *)
+Definition merc_fwd_vel (ms vs : list T) (na : nat) : list T :=
+  let c := merc_com ms vs na in map (fun v => v - c) vs.
+(* inverse, positions: temp = (sum_{1<=i<na} m_i h_i) / ((sum_{1<=i<na} m_i) + m0) ; x0 = com_pos - temp *)
+Definition merc_inv_pos (ms hs : list T) (com : T) (na : nat) : list T :=
+  match ms, hs with
+  | m0 :: mr, _ :: hr =>
+      let temp := mwsum (combine (firstn (na - 1) mr) (firstn (na - 1) hr)) 0 / (sumf N (firstn (na - 1) mr) 0 + m0) in
+      let x0 := com - temp in
+      x0 :: map (fun h => h + x0) hr
+  | _, _ => []
+  end.
+(* inverse, velocities: temp = (sum_{1<=i<na} m_i w_i) / m0 ; v0 = com_vel - temp ; v_i = w_i + com_vel *)
+Definition merc_inv_vel (ms ws : list T) (cv : T) (na : nat) : list T :=
+  match ms, ws with
+  | m0 :: mr, _ :: wr =>
+      let temp := mwsum (combine (firstn (na - 1) mr) (firstn (na - 1) wr)) 0 / m0 in
+      (cv - temp) :: map (fun w => w + cv) wr
+  | _, _ => []
+  end.
 End Comp.
